@@ -507,6 +507,10 @@ func C07(c *hx.Ctx) {
 		}
 	}
 	c.Extra["writer_op_traces_validated"] = wops.cases
+	// non-vacuity of the volume cases: how often the decoded writer output passed through the
+	// range coder's normalisation boundary (range = 2^24-1 / 2^24 after a coded / a direct bit)
+	c.Extra["range_coder_boundary_events"] = map[string]int64{"bit_below_top": ref.RcEvents.BitBelowTop.Load(), "bit_at_top": ref.RcEvents.BitAtTop.Load(),
+		"direct_below_top": ref.RcEvents.DirectBelowTop.Load(), "direct_at_top": ref.RcEvents.DirectAtTop.Load()}
 	if len(forXz) > 0 {
 		dir, _ := os.MkdirTemp(c.Scratch, "xzalone")
 		out, err, present := xzUtilsDecode(dir, forXz, "--format=lzma")
